@@ -177,7 +177,7 @@ func c07Classes(small bool) map[string][]c07Sc {
 			// used with MapReduceVoid / Finish: see registry assumptions.)
 			a := n / 2
 			for _, e := range []string{"MapReduce", "MapReduceVoid", "MapReduceChan", "Finish"} {
-				kinds := []string{"ctx-canceled", "deadline", "cancelnil-sentinel", "wrapped-canceled", "wrapped-deadline"}
+				kinds := []string{"ctx-canceled", "deadline", "cancelnil-sentinel", "wrapped-canceled", "wrapped-deadline", "typed-nil", "struct-value", "non-comparable"}
 				if e == "MapReduce" || e == "MapReduceChan" {
 					kinds = append(kinds, "noout", "wrapped-noout")
 				}
